@@ -17,7 +17,7 @@ set_option linter.unusedSimpArgs false
 
 namespace Anko.C08
 open Anko
-variable [FOps]
+variable [FOps] [Prov]
 
 /-! ### break / continue act on the innermost enclosing loop only -/
 
@@ -179,7 +179,7 @@ def noFloats : FOps :=
 /-- FINDING #13 witness: in the model (as in the interpreter) `try` catches ErrReturn:
 `try { return 1 } catch e { return 2 }` leaves 2 in `rv`. -/
 theorem try_catches_return_witness :
-    (match (@execStmts noFloats 12
+    (match (@execStmts noFloats ⟨true⟩ 12
         [.tryS (.stmts [.ret [.lit (.int 1)]]) "e" (.stmts [.ret [.lit (.int 2)]]) .nilS]
         (St.init none)).rv.v with | .int i => i == 2 | _ => false) = true := by
   decide +kernel
